@@ -507,7 +507,7 @@ func (nc *nilCtx) nonNil(fi *load.FuncInfo, g *cfgx.Graph, e ast.Expr, v int, de
 		if nc.f.sendHelpers[fn] {
 			return nc.nonNil(fi, g, x.Args[len(x.Args)-1], v, depth+1)
 		}
-		if fn.Name() == "servicesPrefix" || strings.HasPrefix(fn.Name(), "New") {
+		if fname(fn) == "servicesPrefix" || strings.HasPrefix(fname(fn), "New") {
 			return true, "constructor"
 		}
 		if isFunc(fn, pathIRC, "ParseMessage") && len(x.Args) == 1 {
